@@ -168,12 +168,12 @@ type Raw struct {
 	Log  *vconn.Log
 	rw   io.ReadWriter // C or a *tls.Conn on top of C
 
-	mu      sync.Mutex
-	cond    *sync.Cond
-	acc     []byte // everything received and not yet taken
-	all     []byte // everything received
-	eof     bool
-	readErr error
+	mu       sync.Mutex
+	cond     *sync.Cond
+	acc      []byte // everything received and not yet taken
+	all      []byte // everything received
+	eof      bool
+	readErr  error
 	pumpGen  int
 	pumpDone chan struct{}
 
